@@ -117,6 +117,8 @@ StreamSS == cfg.stream \in {"server", "bidi"}
 \*   validate.absent_collection_length  (see SideValid)
 \*   message.explicit_loses_required  (hypothetical, a vacuity guard: no such behaviour is known) an attribute listed in an
 \*                                   explicit request Message mapping is no longer required in the request message
+ScalarRequired(a) == a.mode = "required" /\ a.nest \in {"direct", "alias"}
+ZeroOf(a) == IF a.kind = "string" THEN V("string", 0, "empty", 1) ELSE V(a.kind, 0, "plain", 1)
 LosesRequired == Dev("message.explicit_loses_required") /\ cfg.explicit /\ cfg.pa.mode = "required" /\ cfg.pa.loc = "message"
 
 \* --- eval
@@ -173,7 +175,8 @@ ReadBack(a, w) == IF w.loc = "none" THEN (IF a.mode = "default" THEN DefaultOf(a
 SideValid(a, d) ==
   IF d = Absent /\ a.mode = "optional" /\ a.rule = "cminlen" /\ Dev("validate.absent_collection_length") THEN FALSE
   ELSE GValid(a, d)
-ReqValid(d) == IF d = Absent /\ LosesRequired THEN TRUE ELSE SideValid(cfg.pa, d)
+\* (with the field turned optional, a raw message without it skips the rules: also the left-out zero of a scalar)
+ReqValid(d) == IF LosesRequired /\ (d = Absent \/ (cfg.raw /\ ScalarRequired(cfg.pa) /\ d = ZeroOf(cfg.pa))) THEN TRUE ELSE SideValid(cfg.pa, d)
 SideViolation(a, d) == IF d = Absent /\ a.mode = "optional" /\ a.rule = "cminlen" THEN "invalid_length" ELSE ViolationOf(a, d)
 
 ---------------------------------------------------------------------------
@@ -187,8 +190,10 @@ Cfg(pa, ra, st, tm, md) == [pa |-> pa, ra |-> ra, stream |-> st, tagmode |-> tm,
 \* client can) no value
 XMShapes == {a \in [kind: {"int", "string"}, w: {"n", "64"}, loc: {"message"}, mode: Modes, rule: {"min", "none"}, nest: {"direct", "alias", "nested", "elem"}] :
                GWF(a) /\ (a.kind = "int" <=> a.w = "64") /\ (a.kind = "int" <=> a.rule = "min")}
+\* (proto3 has no presence for a plain scalar field: leaving a required scalar out of a raw message IS sending its zero
+\* value - the wire format never carries zero scalars - so that case appears as the zero value, which the harness omits)
 XMVals(a, raw) == {V(a.kind, 3, "plain", 1)} \cup (IF a.rule = "min" THEN {V(a.kind, 1, "plain", 1)} ELSE {})
-                  \cup (IF raw \/ GCanBeAbsent(a) THEN {Absent} ELSE {})
+                  \cup (IF raw /\ ScalarRequired(a) THEN {ZeroOf(a)} ELSE IF raw \/ GCanBeAbsent(a) THEN {Absent} ELSE {})
 
 Init ==
   /\ \/ /\ Family = "req"
